@@ -1173,4 +1173,45 @@ m('seed-c07-twin-iter-first', 'C07', 'neutral', TU, 'tree_sum',
   "for pytree in pytrees:\n  if pytree_sum is None:\n    pytree_sum = jax.tree_util.tree_map(jnp.array, pytree)\n  else:\n    pytree_sum = _tree_add_eq(pytree_sum, pytree)",
   "for pytree in iter(pytrees):\n  if pytree_sum is None:\n    pytree_sum = jax.tree_util.tree_map(jnp.array, pytree)\n  else:\n    pytree_sum = _tree_add_eq(pytree_sum, pytree)")
 
+m('seed-c01-replace-drops-opt-state', ['C01', 'C12'], 'break', FEDAVG, 'federated_averaging.server_update',
+  "return ServerState(params, opt_state)", "return server_state.replace(params=params)", expect='R-SIB.state-carries')
+m('seed-c01-replace-both-twin', ['C01', 'C12'], 'neutral', FEDAVG, 'federated_averaging.server_update',
+  "return ServerState(params, opt_state)", "return server_state.replace(params=params, opt_state=opt_state)")
+m('seed-c12-hyp-stale-opt-state', ['C12', 'C17'], 'break', HYP, 'hyp_cluster.apply', "opt_states.append(next_opt_state)",
+  "opt_states.append(opt_state)", expect='R-HYP.carry')
+m('seed-c12-mime-separate-key', 'C12', 'break', MIME, 'create_train_for_each_client.client_step',
+  "client_control_variate = grad_fn(client_step_state['init_params'], batch, use_rng)",
+  "client_control_variate = grad_fn(client_step_state['init_params'], batch, rng)", expect='R-')
+m('seed-c08-truthy-bound', 'C08', 'break', FD, 'intersect_slice_ranges', "current_stop is not None", "current_stop", mode='expr',
+  expect='R-SIB.none-test')
+multi('seed-c08-shared-cursor', 'C08', 'break', [
+    dict(file=SQL, func='SQLiteFederatedData.__init__', old="self._connection = connection",
+         new="self._connection = connection\nself._read_cursor = connection.cursor()"),
+    dict(file=SQL, func='SQLiteFederatedData._read_clients', mode='expr', old="self._connection.execute", new="self._read_cursor.execute"),
+], expect='R-ORDER.cursor')
+m('seed-c09-rename-inside-with', 'C09', 'break', SER, 'save_state',
+  "with tf.io.gfile.GFile(tmp_path, 'wb') as f:\n  pickle.dump(state, f)",
+  "with tf.io.gfile.GFile(tmp_path, 'wb') as f:\n  pickle.dump(state, f)\n  tf.io.gfile.rename(tmp_path, path, overwrite=True)",
+  expect='R-ATOMIC') if False else None
+multi('seed-c09-rename-inside-with', 'C09', 'break', [
+    dict(file=SER, func='save_state', old="tf.io.gfile.rename(tmp_path, path, overwrite=True)", new="pass"),
+    dict(file=SER, func='save_state', old="pickle.dump(state, f)", new="pickle.dump(state, f)\ntf.io.gfile.rename(tmp_path, path, overwrite=True)"),
+], expect='R-ATOMIC', anywhere=True)
+m('seed-c09-remove-only-oldest', 'C09', 'break', CKPT, 'save_checkpoint',
+  "for path in remove_checkpoint_paths:\n  tf.io.gfile.remove(path)",
+  "if len(remove_checkpoint_paths) > 0:\n  tf.io.gfile.remove(remove_checkpoint_paths[0])", expect='R-RETAIN')
+m('seed-c11-replace-keeps-key', ['C11', 'C10'], 'break', COMP, 'uniform_stochastic_quantizer.apply',
+  "new_state = CompressionState(aggregator_state.num_bits + new_bits, rng)",
+  "new_state = aggregator_state.replace(num_bits=aggregator_state.num_bits + new_bits)", expect='R-KEY.K3')
+m('seed-c11-replace-fresh-key-twin', ['C11', 'C10'], 'neutral', COMP, 'uniform_stochastic_quantizer.apply',
+  "new_state = CompressionState(aggregator_state.num_bits + new_bits, rng)",
+  "new_state = aggregator_state.replace(num_bits=aggregator_state.num_bits + new_bits, rng=rng)")
+m('seed-c06-domain-mean-raw-div', ['C06', 'C17'], 'break', AGN, 'agnostic_federated_averaging.server_update',
+  "mean_domain_loss = util.safe_div(sum_domain_loss, sum_domain_num)", "mean_domain_loss = sum_domain_loss / sum_domain_num",
+  expect='R-DIV')
+m('seed-c06-reg-grad-into-sum', ['C06', 'C12'], 'break', MIME, 'mime.apply',
+  "server_grads = tree_util.tree_inverse_weight(grads_sum_total, num_sum_total)",
+  "grads_sum_total = tree_util.tree_add(grads_sum_total, jax.grad(regularizer)(server_state.params))\nserver_grads = tree_util.tree_inverse_weight(grads_sum_total, num_sum_total)",
+  expect='R-WMEAN.pair-sum')
+
 _E[:] = [e for e in _E if e is not None]
